@@ -9,6 +9,7 @@ CONSTANTS
   UnsatGe = FALSE
   ImsLe = TRUE
   ImsLocalTime = FALSE
+  ImsNotAfterNow = FALSE
   Tokens <- NoTokens
   MaxTokens = 0
   StartPaths <- SmallFiles
@@ -16,6 +17,10 @@ CONSTANTS
   Ranges <- SmallRanges
   Zones <- UtcOnly
   ImsFor <- SmallIms
+  Clocks <- PastOnly
+  MStates <- AbsentOnly
+  MaxReq = 1
+  MemoResolved = FALSE
 INVARIANT Containment
 INVARIANT ServedIsInside
 INVARIANT NothingElseIs404
@@ -28,3 +33,5 @@ INVARIANT ZeroSizeIgnoresRange
 INVARIANT UnsatCarriesSize
 INVARIANT NotModifiedNoBody
 INVARIANT DecisionIndependentOfZone
+INVARIANT DecisionIndependentOfClock
+INVARIANT ResponseFollowsFileSystem
